@@ -150,7 +150,22 @@ pub fn movevalue(args: &Args) {
             let again = mk(*d);
             let mut fl = 0;
             if m == again && again == m { fl |= 1; }
-            if prev.map(|p| p != m && m != p).unwrap_or(true) { fl |= 2; }
+            // "equal exactly when all attributes are equal", the only-if half: the neighbour differing in the destination, and
+            // every value that differs from this one in exactly one other attribute (captured piece, promotion piece, moving
+            // piece, colour, origin), must compare unequal in both directions
+            let mut distinct = prev.map(|p| p != m && m != p).unwrap_or(true);
+            if ctor == "move" {
+                let pi = PieceIndex::new(color, piece);
+                for c2 in caps.iter().filter(|c| **c != cap) { let o = build(pi, from, *d, *c2, pro); if o == m || m == o { distinct = false; } }
+                for p2 in promos.iter().filter(|p| **p != pro) { let o = build(pi, from, *d, cap, *p2); if o == m || m == o { distinct = false; } }
+                for k2 in pieces.iter().filter(|k| **k != piece) { let o = build(PieceIndex::new(color, *k2), from, *d, cap, pro); if o == m || m == o { distinct = false; } }
+                let oc = build(PieceIndex::new(if color == Color::White { Color::Black } else { Color::White }, piece), from, *d, cap, pro);
+                if oc == m || m == oc { distinct = false; }
+                let f2 = Square::ALL[(sq_num(from) as usize) % 64];
+                let of = build(pi, f2, *d, cap, pro);
+                if of == m || m == of { distinct = false; }
+            }
+            if distinct { fl |= 2; }
             if serde_ok(&m) { fl |= 4; }
             strs.push(json!(full_str(&m)));
             raws.push(json!(m.as_raw()));
